@@ -714,6 +714,12 @@ func runC16(a vh.Args, o *vh.Oracle, r *vh.Result) error {
 	}
 	for k := 0; k < n; k++ {
 		g := c16GenTree(rng)
+		if k < 2 { // always present: the all-zero id with an object whose data cannot be produced
+			z := strings.Repeat("0", 64)
+			g.add("0000/"+z+".cacnk", "f", []byte("garbage"), "zero-id")
+			g.add("0000/"+z, "f", nil, "zero-id")
+			sort.Slice(g.ents, func(i, j int) bool { return g.ents[i].Path < g.ents[j].Path })
+		}
 		keep, tag := c16Keep(rng, g.ids)
 		c := &c16Case{Kind: "prune", Unc: rng.Bool(), Tree: g.ents, Keep: keep, KeepTag: tag, Feat: lsFeats(g.feat)}
 		if thorough && os.Getenv("VH_DESYNC") != "" && k%20 == 0 {
